@@ -11,6 +11,7 @@ package app
 import (
 	"encoding/json"
 	"fmt"
+	"os"
 	"strings"
 	"time"
 
@@ -133,10 +134,11 @@ func c09Run(r *vt.Run, c c09Case) (canon string) {
 			leaving := m == nil || m.ShouldLeave
 			wasMaint := a.state == stateMaintenance
 			emergeBefore := w.VFSHas("/vfs/" + host + "/emerge")
+			zkWasDown := w.ZK.Down // the instance cannot attempt to leave without the coordination service
 			inTickOf = host
 			h.Tick(a)
 			inTickOf = ""
-			if wasMaint && leaving && a.dcs.IsConnected() && len(tickMastersAtStart) > 1 && !emergeBefore && a.state == stateMaintenance {
+			if wasMaint && leaving && a.dcs.IsConnected() && !w.ZK.Down && !zkWasDown && len(tickMastersAtStart) > 1 && !emergeBefore && a.state == stateMaintenance {
 				// a leave attempt by the lock holder with several masters must raise the emergency marker
 				if dcsLockOwner(h) == h.ID(a) && !w.VFSHas("/vfs/"+host+"/emerge") {
 					violate("3-several-masters-raise-emergency-marker", fmt.Sprintf("leave attempted by %s with masters %v, no emergency marker", host, tickMastersAtStart))
@@ -167,9 +169,11 @@ func c09Run(r *vt.Run, c c09Case) (canon string) {
 			case "zkDown":
 				w.ZK.Down = true
 				w.ZK.SyncLinks()
+				w.Settle() // session events are delivered and handled before anything else moves (A3)
 			case "zkUp":
 				w.ZK.Down = false
 				w.ZK.SyncLinks()
+				w.Settle()
 			case "promoteH2":
 				// operator moves the master by hand (operator edits happen while paused: that is what maintenance is for)
 				s1, s2, s3 := w.Servers["h1"], w.Servers["h2"], w.Servers["h3"]
@@ -219,6 +223,7 @@ func c09Run(r *vt.Run, c c09Case) (canon string) {
 				return
 			}
 		}
+		w.Settle()
 		canon = h.Canon()
 		st := "none"
 		if m := maint(); m != nil {
@@ -298,10 +303,21 @@ func checkC09(r *vt.Run) {
 				d2 = depth - 1
 			}
 		}
+		if only := os.Getenv("VERIF_C09_ONLY"); only != "" {
+			if only != fmt.Sprintf("paused%v", dss) {
+				continue
+			}
+			d1, d3 = 0, 0
+		}
 		vBFS(r, fmt.Sprintf("full%v|", dss), c09Alphabet, d1, enabled, runner)
 		// from the acknowledged full-maintenance state
 		prefix := []string{"onFull", "mgrTick", "candTick"}
-		vBFS(r, fmt.Sprintf("paused%v|", dss), c09Alphabet, d2, enabled, func(hist []string) string {
+		pausedAlpha := c09Alphabet
+		if r.Quick() {
+			// quick: the events that matter once paused (the full alphabet is used in thorough)
+			pausedAlpha = []string{"mgrTick", "candTick", "off", "delKey", "restartMgr", "zkDown", "zkUp", "promoteH2", "twoMasters", "writableH3", "h1Dies", "adv5"}
+		}
+		vBFS(r, fmt.Sprintf("paused%v|", dss), pausedAlpha, d2, enabled, func(hist []string) string {
 			return runner(append(append([]string(nil), prefix...), hist...))
 		})
 		// from the acknowledged light-maintenance state
